@@ -271,6 +271,11 @@ def build_clis(a, rundir):
         if rc != 0:
             log(o)
             out.append(("build", f"go build ./cmd/{name}", o[-1500:]))
+    # the race-detector build of seqinfo (one extra run per case with two or more patterns)
+    rc, o = sh(["go", "build", "-race", "-tags", "verif", "-o", os.path.join(BUILD, "seqinfo.race"), "./cmd/seqinfo"], cwd=REPO, env=GOENV)
+    if rc != 0:
+        log(o)
+        out.append(("build", "go build -race ./cmd/seqinfo", o[-1500:]))
     return out
 
 
@@ -368,6 +373,7 @@ def main(argv):
     ap.add_argument("--replay")
     ap.add_argument("--n", type=int)
     a = ap.parse_args(argv)
+    os.environ["VERIF_TIER"] = a.tier   # the harness reads it (how often the costly extra runs happen)
     pid = a.pid
     if pid not in props.PROPS:
         log("unknown property", pid)
